@@ -112,8 +112,14 @@ fn import_sequence_node_fields(
         }
 
         if tag_name == "sequence" {
-            // nested sequence
-            return import_sequence_node_fields(&mut child, doc, base_fields);
+            // nested sequence: its members are followed by the remaining siblings
+            import_sequence_node_fields(&mut child, doc, base_fields)?;
+            continue;
+        }
+
+        if tag_name == "attributeGroup" {
+            // attribute groups are not supported (they used to be skipped by the early return above)
+            continue;
         }
 
         // regular field
